@@ -603,6 +603,13 @@ theorem winner_is_max_vm (scoresOf : Key → List CoreVM.Score) (group : List Ke
   have h := corevm_picked_is_max scoresOf group c hc z hz
   exact (scoresLt_false_iff _ _).1 h
 
+/-- `picked_among_exact_ties` on CoreVM: whatever the tie-break answers, the picked head's (unpadded) score vector is exactly
+    equal — same length, same values — to the vector of the first head of the descending order; and every such candidate index is a
+    possible answer (`pickChoice` accepts every `c < nEq`). -/
+theorem picked_among_exact_ties_vm (scoresOf : Key → List CoreVM.Score) (group : List Key) (c : Nat) (hc : c < vmTies scoresOf group) :
+    (scoresOf (vmPicked scoresOf group c)).map CoreVM.Score.val = (scoresOf (vmPicked scoresOf group 0)).map CoreVM.Score.val :=
+  scoresEq_val (corevm_picked_among_exact_ties scoresOf _ c hc)
+
 /-- `better_score_wins` on CoreVM -/
 theorem better_score_wins_vm (scoresOf : Key → List CoreVM.Score) (group : List Key) (c : Nat) (hc : c < vmTies scoresOf group)
     (A B : Key) (hA : A ∈ group) (pre : List CoreVM.Score) (a b : CoreVM.Score) (ta tb : List CoreVM.Score)
